@@ -45,7 +45,23 @@ def explore_item(ck, it, tier):
             ck.cover('panic path unwound', True)
             continue
         nadd = sum(1 for e in x.events if e[0] == 'sem.add_permits')
-        ck.obligation('the connection task terminates', p.pc, z3.BoolVal(x.state == 'ready'), {}, None, [])
+        on_term = None
+        if fault == 'partial-big' and end == 'silent':
+            def on_term(m, where):
+                # connection limit 1: A sends the header of an oversized set and 100 bytes of its body, then nothing; after the idle
+                # timeout (1 s) its slot must be free again: B is served
+                from .wire import frame
+                import struct
+                big = struct.pack('>BBHBBHIIQ', 0x80, 0x01, 1, 8, 0, 0, 2000, 1, 0) + b'\0' * 8 + b'k' + b'v' * 91
+                noop = frame(0x0a, opaque=9).hex()
+                sc = {'kind': 'socket', 'item_limit': 1024, 'timeout_secs': 1, 'connection_limit': 1,
+                      'conns': [{'chunks': [big.hex()], 'pause_ms': 50, 'read_ms': 2500, 'end': 'hold'},
+                                {'chunks': [noop], 'pause_ms': 40, 'read_ms': 1000, 'end': 'hold'}]}
+                out = ck.replay([sc])[0]
+                served = len(out['conns'][1].get('received', '')) >= 48
+                desc = f"connection limit 1: A sends an oversized set header + 100 body bytes and goes silent; 2.5 s later (idle timeout 1 s) B's noop is answered: {served}"
+                return (None if served else True), desc, sc
+        ck.obligation('the connection task terminates', p.pc, z3.BoolVal(x.state == 'ready'), {}, on_term, [])
         ck.obligation('slot returned exactly once', p.pc, z3.And(z3.BoolVal(nadd == 1), x.permits == permits0 + 1), {}, None, [])
         ck.cover('ending: ' + ('quit' if 6 in ops else 'quitq' if 7 in ops else 'oversized' if BIG in ops else f'{fault or "clean"}/{end}') + ('/write error' if wfail else ''), True)
         if any(e[0] == 'timeout' for e in x.events):
@@ -87,7 +103,8 @@ def run(tier, seed, replay_path=None):
                        'sequences of lifecycles: induction on the permit counter']
     items = []
     for ops in ([], [2], [0, 2]) if tier != 'quick' else ([], [2]):
-        for end, fault in (('eof', None), ('eof', 'partial'), ('error', 'partial'), ('silent', 'partial'), ('eof', 'corrupt'), ('silent', None)):
+        for end, fault in (('eof', None), ('eof', 'partial'), ('error', 'partial'), ('silent', 'partial'), ('eof', 'corrupt'), ('silent', None),
+                           ('silent', 'partial-big'), ('eof', 'partial-big')):
             items.append((tuple(ops), end, fault, False))
     items += [((6,), 'eof', None, False), ((2, 6), 'eof', None, False), ((7,), 'eof', None, False), ((2, 7), 'silent', None, False),
               ((BIG,), 'eof', None, False), ((BIG, 4), 'silent', None, False), ((2,), 'eof', None, True), ((0, 6), 'eof', None, True)]
